@@ -244,3 +244,12 @@ def callee_matches(t, *subs):
     c = t.get("callee") or ""
     r = t.get("resolved") or ""
     return any(s in c or s in r for s in subs)
+
+
+import re as _re
+_SYSCALL_RE = _re.compile(r"^sc::(?:\w+::)*syscall\d$")
+
+
+def is_raw_syscall(name):
+    """callee path of the sc crate's syscallN functions (what `syscall!` expands to)."""
+    return bool(name) and bool(_SYSCALL_RE.match(name))
